@@ -228,10 +228,18 @@ void error_handler (const char *err) {
         }
       else
         {
+          /* The handler is LPC code: a catch() that completes in it pops an error
+           * context, which clears the error state - and with it the mark that makes an
+           * evaluation-limit or stack error uncatchable for the catch we are about to
+           * jump to.  The mark belongs to the error being delivered, not to the handler. */
+          int uncatchable = get_error_state (ES_MAX_EVAL_COST | ES_STACK_FULL);
+
           in_mudlib_error_handler = 1;
           note_error_being_handled (err);
           mudlib_error_handler (err, 1);
           in_mudlib_error_handler = 0;
+          if (uncatchable)
+            set_error_state (uncatchable);
         }
 #endif	/* LOG_CATCHES */
 
@@ -271,12 +279,17 @@ void error_handler (const char *err) {
     }
   else
     {
+      /* as above: what the handler's own catch()es clear is not theirs to clear */
+      int limit_marks = get_error_state (ES_MAX_EVAL_COST | ES_STACK_FULL);
+
       in_mudlib_error_handler = 1;
       in_error = 0;
       note_error_being_handled (err);
       mudlib_error_handler (err, 0);
       in_error = 1;
       in_mudlib_error_handler = 0;
+      if (limit_marks)
+        set_error_state (limit_marks);
     }
 
   if (current_heart_beat)
